@@ -20,6 +20,7 @@ import LfsModel.PushModel
 import LfsModel.Gen
 import LfsModel.GenApi
 import LfsModel.ApiReq
+import LfsModel.Checkout
 open Lfs
 
 namespace Oracle
@@ -430,6 +431,51 @@ def c18 : List String → String
      | _, _ => "bad-op")
   | _ => "bad-op"
 
+/-! ### C04 -/
+def bits (s : String) : List Bool := if s == "-" then [] else s.toList.map (· == '1')
+
+def c04 : List String → String
+  | ["allows", d, inc, exc] =>
+    -- pattern i matches the file iff bit i is set
+    let ib := bits inc; let eb := bits exc
+    let m : (Bool × Nat) → Bytes → Bool := fun p _ => if p.1 then ib.getD p.2 false else eb.getD p.2 false
+    if Co.allows m ((List.range ib.length).map fun i => (true, i)) ((List.range eb.length).map fun i => (false, i)) (d == "1") [] then "1" else "0"
+  | ["run", oid, size, loc, state] =>
+    (match unhex oid, size.toNat? with
+     | some o, some n =>
+       let recorded : Ptr := { oid := o, size := n, exts := [] }
+       let content : Bytes := [0xC0, 0xFF, 0xEE]
+       let st : Co.Store := if loc == "1" then [(o, content)] else []
+       let cur? : Option Co.WFile :=
+         if state == "a0" then some (.absent false) else if state == "a1" then some (.absent true)
+         else if state == "u" then some .unreadable
+         else if state.startsWith "f" then (unhex (state.drop 1).toString).map Co.WFile.file else none
+       (match cur? with
+        | none => "bad-op"
+        | some cur =>
+          match Co.run recorded st cur, cur with
+          | none, _ => "absent"
+          | some out, .file b => if out == b then "keep" else if out == content then "content" else "pointer:" ++ hex out
+          | some out, _ => if out == content then "content" else "pointer:" ++ hex out)
+     | _, _ => "bad-op")
+  | ["tofetch", ps] =>
+    -- ps: oid:size:localsize|n per pointer; answer: indices of the pointers requested
+    let ptrs? := (if ps == "-" then some [] else (ps.splitOn ",").mapM fun t =>
+      match t.splitOn ":" with
+      | [o, n, l] => do
+        let o ← unhex o; let n ← n.toNat?
+        let l : Option Nat ← (if l == "n" then some none else l.toNat?.map some)
+        pure (({ oid := o, size := n, exts := [] } : Ptr), l)
+      | _ => none)
+    (match ptrs? with
+     | none => "bad-op"
+     | some pl =>
+       let sizeOf : Co.Store → Bytes → Option Nat := fun _ o => (pl.find? fun x => x.1.oid == o).bind (·.2)
+       let want := Co.toFetch sizeOf [] (pl.map (·.1))
+       String.intercalate "," (((List.range pl.length).zip pl).filterMap fun (i, x) =>
+         if want.any (fun w => w.oid == x.1.oid && w.size == x.1.size) then some (toString i) else none))
+  | _ => "bad-op"
+
 def answer (line : String) : String :=
   match line.splitOn " " with
   | "C07" :: rest => c07 rest
@@ -446,6 +492,7 @@ def answer (line : String) : String :=
   | "C03" :: rest => c03 rest
   | "C15" :: rest => c15 rest
   | "C18" :: rest => c18 rest
+  | "C04" :: rest => c04 rest
   | _ => "bad-op"
 
 partial def loop (h : IO.FS.Stream) (out : IO.FS.Stream) : IO Unit := do
